@@ -143,7 +143,7 @@ func rulesC01(c *Ctx) {
 			// fields stored in PrepareProposal
 			stored := map[string]bool{}
 			if fn := c.needFn("C01.cache", pkABCI+".(*abciMux).PrepareProposal"); fn != nil {
-				for _, b := range fn.Blocks {
+				for _, b := range blocksIP(fn) {
 					for _, in := range b.Instrs {
 						if s, ok := in.(*ssa.Store); ok {
 							if fa, ok := s.Addr.(*ssa.FieldAddr); ok && strings.HasPrefix(fieldKey(fa.X.Type(), fa.Field), pkABCI+".proposalState.") {
@@ -155,7 +155,7 @@ func rulesC01(c *Ctx) {
 			}
 			compared := map[string]bool{}
 			if fn := c.needFn("C01.cache", pkABCI+".(*proposalState).isEqual"); fn != nil {
-				for _, b := range fn.Blocks {
+				for _, b := range blocksIP(fn) {
 					for _, in := range b.Instrs {
 						if fa, ok := in.(*ssa.FieldAddr); ok && strings.HasPrefix(fieldKey(fa.X.Type(), fa.Field), pkABCI+".proposalState.") {
 							compared[fieldName(fa.X.Type(), fa.Field)] = true
@@ -176,7 +176,7 @@ func rulesC01(c *Ctx) {
 			// result fields (set by setResults) and the working tree/hash are not proposal inputs
 			results := map[string]bool{}
 			if fn := c.needFn("C01.cache", pkABCI+".(*proposalState).setResults"); fn != nil {
-				for _, b := range fn.Blocks {
+				for _, b := range blocksIP(fn) {
 					for _, in := range b.Instrs {
 						if s, ok := in.(*ssa.Store); ok {
 							if fa, ok := s.Addr.(*ssa.FieldAddr); ok && strings.HasPrefix(fieldKey(fa.X.Type(), fa.Field), pkABCI+".proposalState.") {
@@ -188,7 +188,7 @@ func rulesC01(c *Ctx) {
 			}
 			tested := map[string]bool{}
 			if fn := c.needFn("C01.cache", pkABCI+".(*proposalState).needsExecution"); fn != nil {
-				for _, b := range fn.Blocks {
+				for _, b := range blocksIP(fn) {
 					for _, in := range b.Instrs {
 						if fa, ok := in.(*ssa.FieldAddr); ok && strings.HasPrefix(fieldKey(fa.X.Type(), fa.Field), pkABCI+".proposalState.") {
 							tested[fieldName(fa.X.Type(), fa.Field)] = true
